@@ -5,13 +5,15 @@ PROP = {'counts': {'quick': 0, 'thorough': 0},
  'model_input': 'both',
  'extra': 'c07_extra',
  'rule': 'WEAKEST TIE OF THE TWENTY. Static half: gofacts/locks.go regenerates coq/gen/Locks.v from the Go '
-         'source (33 written locations, ~350 rows (location, function, read/write, locks held with modes), '
-         '~65 lock-order edges); C07_fields_protected / C07_lock_order_acyclic are recomputed by vm_compute '
-         'on that table, and lockset_sound / ranked_no_deadlock say what the table implies for every '
-         'conforming trace. Dynamic half: one case = one process running harness/stress for 2.5 s (quick) / '
-         '5 s (thorough): 8-32 goroutines on ONE open engine issue a seeded mix (all, delete, putflush, tx, '
-         'compact, scan, stats, registry) of Put/Delete/Get/IsDeleted/GetIterator/GetRangeIterator '
-         '(drained)/ApplyBatch/read-only and read-write '
+         'source (47 written locations, ~470 rows (location, function, read/write, locks held with modes), '
+         '~95 lock-order edges; since w-C15L the primary side of pkg/replication is covered: session map, '
+         'sessions, batcher, heartbeat monitor, replication manager); C07_fields_protected / '
+         'C07_lock_order_acyclic are recomputed by vm_compute on that table, and lockset_sound / '
+         'ranked_no_deadlock say what the table implies for every conforming trace. Dynamic half: one case = '
+         'one process running harness/stress for 2.5 s (quick) / 5 s (thorough): 8-32 goroutines on ONE open '
+         'engine issue a seeded mix (all, delete, putflush, tx, compact, scan, stats, registry) of '
+         'Put/Delete/Get/IsDeleted/GetIterator/GetRangeIterator (drained)/ApplyBatch/read-only and '
+         'read-write '
          'transactions/FlushImMemTables/TriggerCompaction/CompactRange/GetStats/GetCompactionStats/GetWAL/transaction-manager '
          'stats/transaction registry (Begin, Get, Remove, CleanupConnection, CleanupStaleTransactions)/a '
          'free-standing stats collector, with tiny memtables (2-16 KB), 1 s compaction interval, then a '
@@ -27,12 +29,21 @@ PROP = {'counts': {'quick': 0, 'thorough': 0},
                   'initialised with &x.mutex is that mutex (TransactionImpl.rwLock = Manager.txLock); (2) '
                   'covered packages: pkg/engine/storage, pkg/engine, pkg/memtable, pkg/compaction, '
                   'pkg/engine/compaction, pkg/stats, pkg/transaction, pkg/sstable, pkg/wal, pkg/config, '
-                  'pkg/engine/iterator; calls into other packages (replication, common/iterator/*, '
-                  'sstable/block, bloom ...) have no lock effect and no accesses; (3) roots = exported '
-                  'methods of engine.EngineFacade, storage.Manager, '
-                  'transaction.Manager/TransactionImpl/RegistryImpl, engine/compaction.Manager, '
-                  'compaction.DefaultCompactionCoordinator, stats.AtomicCollector, the sstable/memtable '
-                  'iterators and the iterator factory, plus every go statement of the covered packages; '
+                  'pkg/engine/iterator, pkg/replication EXCEPT its replica side (files replica.go, state.go: '
+                  'lockExcludeFiles; functions declared there are treated like functions of an uncovered '
+                  'package); calls into other packages (common/iterator/*, sstable/block, bloom, '
+                  'gRPC/protobuf ...) have no lock effect and no accesses; (3) roots = exported methods of '
+                  'engine.EngineFacade, storage.Manager, transaction.Manager/TransactionImpl/RegistryImpl, '
+                  'engine/compaction.Manager, compaction.DefaultCompactionCoordinator, '
+                  'stats.AtomicCollector, the sstable/memtable iterators and the iterator factory, '
+                  'replication.Primary (gRPC handlers StreamWAL/Acknowledge/NegativeAcknowledge entered '
+                  'WITHOUT the no-close assumption because the network starts them; WAL observer callbacks '
+                  'OnWALEntryWritten/OnWALBatchWritten/OnWALSync entered with wal.WAL.mu held exclusively — '
+                  'the WAL calls them between Lock and Unlock — and also reached through the interface call '
+                  "in wal.notify*Observers with the caller's real set; OnWALRotated, GetReplicaInfo, "
+                  'GetLastSequence, Close) and replication.Manager (Status, GetNodeInfo, Stop), plus every '
+                  'go statement of the covered packages (ReplicaSession.sendLoop, '
+                  'heartbeatManager.monitorLoop, sessionContext watcher, gRPC Serve goroutine included); '
                   'Start and everything reached only from constructors (New*, Open*, recoverFromWAL, '
                   "loadSSTables) is pre-publication and not analysed; (4) 'Close is not concurrent with "
                   "client calls' is encoded as a pseudo lock assume:no-close-during-calls (client roots "
@@ -50,18 +61,27 @@ PROP = {'counts': {'quick': 0, 'thorough': 0},
                   'written, go statements with the empty set; (8) a location is listed only if reachable '
                   'code writes it (74 fields are initialised before publication and only read afterwards); '
                   'composite-literal initialisation and accesses through a local that holds a freshly '
-                  'constructed object (&T{}, new, New*/Open* call) are not shared accesses; &x.f counts as a '
-                  'read; element stores and delete() count as writes of the container field; a method call '
-                  'on a field whose type is a struct from outside the module (bufio.Writer, rand.Rand ...; '
-                  'not sync, atomic, os, time, context) counts as a write of the field; (9) mutexes, '
-                  'channels and sync/atomic-typed fields are synchronised by construction; sync/atomic '
-                  'FUNCTION calls on a plain field hold the pseudo lock atomic(field) exclusively (so mixed '
-                  'atomic/plain use is flagged); (10) fields of thread-confined types are not listed '
-                  '(gofacts/locks.go confinedTypes: iterators, SSTable writer parts, transaction buffer, WAL '
-                  'reader/batch/entry values, compaction task values, skip-list nodes/entries); (11) no '
-                  "filter 'reachable from more than one method': the same method may run in two goroutines; "
-                  '(12) allow-list (lockAllow) is empty at present; its size is in the evidence '
-                  '(lock_table.allow_list_entries).',
+                  'constructed object (&T{}, new, New*/Open* call) are not shared accesses UNTIL the first '
+                  'statement that hands the local to other code (call argument, store into a '
+                  'field/map/slice/composite literal/channel, operand of go, capture by a go literal; method '
+                  'calls on the local do not publish it); &x.f counts as a read; element stores and delete() '
+                  'count as writes of the container field; a method call on a field whose type is a struct '
+                  'from outside the module (bufio.Writer, rand.Rand ...; not sync, atomic, os, time, '
+                  'context) counts as a write of the field; (9) mutexes, channels and sync/atomic-typed '
+                  'fields are synchronised by construction; sync/atomic FUNCTION calls on a plain field hold '
+                  'the pseudo lock atomic(field) exclusively (so mixed atomic/plain use is flagged); (10) '
+                  'fields of thread-confined types are not listed (gofacts/locks.go confinedTypes: '
+                  'iterators, SSTable writer parts, transaction buffer, WAL reader/batch/entry values, '
+                  "compaction task values, skip-list nodes/entries); (11) no filter 'reachable from more "
+                  "than one method': the same method may run in two goroutines; (12) allow-list (lockAllow): "
+                  '4 entries, all marked FINDING = genuine unprotected accesses in kevo that are reported, '
+                  'not refinements (replication.ReplicaSession.Connected, .Active, .LastAckSequence, '
+                  '.LastActivity: flags / counter / timestamp of a session written under the session mutex '
+                  'and read under Primary.mu shared or no lock; three confirmed by the race detector on the '
+                  'C15 session-churn probe); their rows are NOT in gen_accesses, so the lemma says nothing '
+                  'about them; sizes in the evidence (lock_table.allow_list_entries, lock_table.findings); '
+                  '(13) external packages are imported through the one source importer of gofacts (gRPC '
+                  'type-checked once).',
                   'Go runtime semantics of sync.Mutex/RWMutex/atomic (mutual exclusion, the happens-before '
                   'edges of the Go memory model: Unlock -> later Lock/RLock, RUnlock -> later Lock) are the '
                   '`wf`/`hb` definitions of LockDiscipline.v, not proved of the runtime',
